@@ -1,5 +1,5 @@
 CONSTANTS MaxDepth = 6
           MaxRowsC = 8
 INIT Init
-NEXT Next
+NEXT NextSim
 CONSTRAINT SimBound
